@@ -44,7 +44,7 @@ func (o vfNOp) String() string {
 func vfNAlphabet() []vfNOp {
 	var ops []vfNOp
 	for u := 0; u < 3; u++ {
-		for _, m := range []string{"JRWPS", "JRWPASDO", "JRW", "N"} {
+		for _, m := range []string{"JRWPS", "JRWPASDO", "JRWPAS", "JRW", "N"} {
 			ops = append(ops, vfNOp{Kind: "setself", Actor: u, Mode: m})
 		}
 		ops = append(ops, vfNOp{Kind: "sub", Actor: u, Mode: ""}, vfNOp{Kind: "sub", Actor: u, Mode: "JRWPASDO"}, vfNOp{Kind: "unsub", Actor: u}, vfNOp{Kind: "leave", Actor: u})
